@@ -65,6 +65,30 @@ def _shape_tile(units, shape):
     return flat.reshape(tuple(shape) + units[0].shape), [i % len(units) for i in range(n)]
 
 
+def _run_group(unit_fn, case):
+    """Evaluate unit_fn on every ordered row set head + tail, tail running over the ordered
+    (k - len(head))-subsets of the remaining rows of the alphabet.  One framework case = one group
+    (keeps the enumeration in the workers); every unit is a separate library execution."""
+    rows, k, head = case["alphabet"], case["k"], list(case["head"])
+    rest = [i for i in range(len(rows)) if i not in head]
+    base = {key: case[key] for key in ("p", "q", "conj") if key in case}
+    v, t, outs, nt, units, indom = [], 0, set(), False, 0, 0
+    for tail in itertools.permutations(rest, k - len(head)):
+        c = dict(base)
+        c["rows"] = [list(rows[i]) for i in head + list(tail)]
+        r = unit_fn(c)
+        units += 1
+        t += r.get("t", 0)
+        if r.get("nt"):
+            nt = True
+            indom += 1
+            outs.add(r.get("o"))
+        if len(v) < 4:
+            v.extend(r.get("v", [])[:4 - len(v)])
+    return {"v": v, "t": t, "nt": nt,
+            "o": repr((base.get("p"), base.get("q"), base.get("conj"), k, head, units, indom, sorted(outs, key=repr)[:4]))}
+
+
 def _gram_check(M, Bf):
     G = M @ Bf @ M.T
     off, un = L.offdiag_and_unit_error(G)
@@ -833,6 +857,26 @@ def case_circle_angles(case):
     return {"v": v, "t": t, "o": repr((case["centre"], r)), "nt": True}
 
 
+@_quiet
+def case_orth_group(case):
+    return _run_group(case_orth.__wrapped__, case)
+
+
+@_quiet
+def case_isometry_group(case):
+    return _run_group(case_isometry.__wrapped__, case)
+
+
+@_quiet
+def case_definite_group(case):
+    return _run_group(case_definite.__wrapped__, case)
+
+
+@_quiet
+def case_complement_group(case):
+    return _run_group(case_complement.__wrapped__, case)
+
+
 # ------------------------------------------------------------------------------------------
 # enumeration
 # ------------------------------------------------------------------------------------------
@@ -846,15 +890,30 @@ def form_cases(nmax):
                 yield {"p": p, "q": n - p, "conj": ci}
 
 
-def rowset_cases(nmax, m_rows, seed, kmax_full=True):
-    for f in form_cases(nmax):
-        n = f["p"] + f["q"]
+def rowset_groups(nmax, m_rows, seed, partial_only, with_forms=True, nmin=1):
+    """groups of ordered k-subsets of the row alphabet: all of them for k = 1, one group per
+    first row for k >= 2; together they cover every ordered k-subset exactly once."""
+    forms = list(form_cases(nmax)) if with_forms else [{"n": n} for n in range(nmin, nmax + 1)]
+    for f in forms:
+        n = f["n"] if "n" in f else f["p"] + f["q"]
+        if n < nmin:
+            continue
         rows = L.row_alphabet(n, m_rows(n), seed)
-        for k in range(1, n + 1):
-            for rs in itertools.permutations(rows, k):
-                c = dict(f)
-                c["rows"] = [list(r) for r in rs]
+        for k in range(1, n if partial_only else n + 1):
+            heads = [[]] if k == 1 else [[i] for i in range(len(rows))]
+            for head in heads:
+                c = {key: f[key] for key in ("p", "q", "conj") if key in f}
+                c.update({"alphabet": rows, "k": k, "head": head})
                 yield c
+
+
+def count_rowsets(nmax, m_rows, partial_only, forms_per_n):
+    tot = 0
+    for n in range(1, nmax + 1):
+        m = len(L.row_alphabet(n, m_rows(n), 0))
+        for k in range(1, n if partial_only else n + 1):
+            tot += forms_per_n(n) * math.perm(m, k)
+    return tot
 
 
 def batch_cases(nmax, m_rows, seed, partial_only, units=5):
@@ -877,14 +936,6 @@ def batch_cases(nmax, m_rows, seed, partial_only, units=5):
                 c = dict(f)
                 c.update({"rowsets": sel, "shape": list(shape)})
                 yield c
-
-
-def definite_cases(nmax, m_rows, seed):
-    for n in range(2, nmax + 1):
-        rows = L.row_alphabet(n, m_rows(n), seed)
-        for k in range(1, n):
-            for rs in itertools.permutations(rows, k):
-                yield {"rows": [list(r) for r in rs]}
 
 
 def definite_batch_cases(nmax, m_rows, seed):
@@ -1035,21 +1086,26 @@ def run(ctx):
     dom_forms = {"signatures": "all (p,q), 1 <= p+q <= %d" % nmax, "conjugators per dimension": [len(L.unimodular_family(n)) for n in range(1, nmax + 1)],
                  "row alphabet sizes": [m_rows(n) for n in range(1, nmax + 1)], "seed": seed}
 
-    ctx.product("orthogonalize", "checks.c18:case_orth", rowset_cases(nmax, m_rows, seed), domains=dom_forms, chunk=256)
-    ctx.product("find_isometry", "checks.c18:case_isometry",
-                (c for c in rowset_cases(nmax, m_rows, seed) if len(c["rows"]) < c["p"] + c["q"]), domains=dom_forms, chunk=256)
+    def nforms(n):
+        return (n + 1) * len(L.unimodular_family(n))
+    dom_forms["ordered row sets (all k)"] = count_rowsets(nmax, m_rows, False, nforms)
+    dom_forms["ordered partial row sets (k<n)"] = count_rowsets(nmax, m_rows, True, nforms)
+    dom_forms["grouping"] = "one framework case = all ordered k-subsets with a given first row (k=1: all rows)"
+    ctx.product("orthogonalize", "checks.c18:case_orth_group", rowset_groups(nmax, m_rows, seed, False), domains=dom_forms, chunk=4)
+    ctx.product("find_isometry", "checks.c18:case_isometry_group", rowset_groups(nmax, m_rows, seed, True), domains=dom_forms, chunk=4)
     nb = 4 if q else 5
     ctx.product("orthogonalize-batch", "checks.c18:case_orth_batch", batch_cases(nb, m_rows, seed, False),
                 domains={"shapes": SHAPES_R2, "units": 5, "nmax": nb}, chunk=64)
     ctx.product("find_isometry-batch", "checks.c18:case_isometry_batch", batch_cases(nb, m_rows, seed, True),
                 domains={"shapes": SHAPES_R2, "units": 5, "nmax": nb}, chunk=64)
-    ctx.product("find_definite_isometry", "checks.c18:case_definite", definite_cases(nmax, m_rows, seed),
-                domains={"n": "2..%d" % nmax, "k": "1..n-1", "force_oriented": [False, True]}, chunk=256)
+    ctx.product("find_definite_isometry", "checks.c18:case_definite_group",
+                rowset_groups(nmax, m_rows, seed, True, with_forms=False, nmin=2),
+                domains={"n": "2..%d" % nmax, "k": "1..n-1", "force_oriented": [False, True],
+                         "ordered row sets": count_rowsets(nmax, m_rows, True, lambda n: 1 if n >= 2 else 0)}, chunk=4)
     ctx.product("find_definite_isometry-batch", "checks.c18:case_definite_batch", definite_batch_cases(nb, m_rows, seed),
                 domains={"shapes": SHAPES_R2, "nmax": nb}, chunk=16)
-    ctx.product("orthogonal_complement", "checks.c18:case_complement",
-                (c for c in rowset_cases(min(nmax, 5), m_rows, seed) if len(c["rows"]) < c["p"] + c["q"]),
-                domains=dom_forms, chunk=256)
+    ctx.product("orthogonal_complement", "checks.c18:case_complement_group",
+                rowset_groups(min(nmax, 5), m_rows, seed, True), domains=dom_forms, chunk=4)
     ctx.product("projection", "checks.c18:case_projection",
                 [dict(f, rows=L.row_alphabet(f["p"] + f["q"], m_rows(f["p"] + f["q"]), seed)) for f in form_cases(nmax)],
                 domains=dom_forms, chunk=4)
